@@ -75,6 +75,68 @@ fn far_sessions(ctx: &mut Ctx) {
     ctx.rng = rng;
     let set = |v: &mut Value, name: &str, n: u64| { if let Value::Map(m) = v { for (k, x) in m.iter_mut() { if k.as_text() == Some(name) { *x = Value::Integer(n.into()); } } } };
     let bases: Vec<u64> = if ctx.thorough { vec![255, 256, 257, 65_534, 65_535, 65_536, 65_537, 131_071, 16_777_215, 16_777_216, 16_777_300, 3_000_000_000, 4_294_967_000] } else { vec![255, 256, 65_535, 65_536, 65_600, 16_777_215, 16_777_216, 3_000_000_000] };
+    // two sessions whose keys agree in their leading octets (8, 16, 31 of 32) and differ afterwards: a message of one is a
+    // message "encrypted under other keys" for the other.  Session A is used first, on this thread, then B receives A's message.
+    for keep in [8usize, 16, 31, 1] {
+        let set_key = |v: &mut Value, name: &str, keep: usize| {
+            if let Value::Map(m) = v { for (k, x) in m.iter_mut() { if k.as_text() == Some(name) {
+                match x {
+                    Value::Bytes(b) => { for y in b.iter_mut().skip(keep) { *y ^= 0x5a; } }
+                    Value::Array(a) => { for y in a.iter_mut().skip(keep) { if let Some(n) = y.as_integer().and_then(|i| u8::try_from(i).ok()) { *y = Value::Integer((n ^ 0x5a).into()); } } }
+                    _ => {}
+                }
+            } } }
+        };
+        for to_device in [true, false] {
+            let name = if to_device { "sk_reader" } else { "sk_device" };
+            let a_state = if to_device { e.dev.stringify().unwrap() } else { e.rdr.stringify().unwrap() };
+            let mut vb = state_value(&a_state);
+            set_key(&mut vb, name, keep);
+            let b_state = base64::encode(crate::runner::to_bytes(&vb));
+            let pt = if to_device { vec![0xa0] } else { crate::runner::to_bytes(&Value::Map(vec![(text("version"), text("1.0")), (text("status"), uint(0))])) };
+            let (accepted_by_a, accepted_by_b) = if to_device {
+                let (Ok(mut a), Ok(mut b)) = (device::SessionManager::parse(a_state.clone()), device::SessionManager::parse(b_state)) else { continue };
+                let ka = dev_view(&a).0;
+                let msg = session_data(Some(&aes_encrypt(&ka.sk_reader, &iso_iv(false, ka.reader_ctr as u32 + 1), &pt)), None);
+                (catch(|| !a.handle_request(&msg).errors.contains_key("decryption_errors")), catch(|| !b.handle_request(&msg).errors.contains_key("decryption_errors")))
+            } else {
+                let (Ok(mut a), Ok(mut b)) = (reader::SessionManager::parse(a_state.clone()), reader::SessionManager::parse(b_state)) else { continue };
+                let ka = rdr_view(&a);
+                let msg = session_data(Some(&aes_encrypt(&ka.sk_device, &iso_iv(true, ka.device_ctr as u32 + 1), &pt)), None);
+                (catch(|| !a.handle_response(&msg).errors.contains_key("decryption_errors")), catch(|| !b.handle_response(&msg).errors.contains_key("decryption_errors")))
+            };
+            let obs = arr(vec![Value::Bool(accepted_by_a.unwrap_or(false)), Value::Bool(accepted_by_b.unwrap_or(true))]);
+            ctx.case("sessions_with_a_common_key_prefix", serde_json::json!({"to_device": to_device, "common_octets": keep}), obs, None, Some(("c06.spec_other_key", vec![])), true);
+        }
+    }
+    // the genuine next message, then the SAME message again to the same object (a replay), at every base and at the very
+    // end of the counter range (receive counter 2^32 - 2: the last message of a direction, then its replay)
+    let mut replay_bases = bases.clone();
+    replay_bases.extend([4_294_967_293u64, 4_294_967_294]);
+    for base in replay_bases {
+        let c = base + 1;
+        for to_device in [true, false] {
+            let mut v = state_value(&if to_device { e.dev.stringify().unwrap() } else { e.rdr.stringify().unwrap() });
+            set(&mut v, if to_device { "reader_message_counter" } else { "device_message_counter" }, base);
+            let b64 = base64::encode(crate::runner::to_bytes(&v));
+            let (mut dev, mut rdr) = (if to_device { device::SessionManager::parse(b64.clone()).ok() } else { None }, if to_device { None } else { reader::SessionManager::parse(b64).ok() });
+            let key = if to_device { dev.as_ref().map(|d| dev_view(d).0.sk_reader) } else { rdr.as_ref().map(|r| rdr_view(r).sk_device) };
+            let Some(key) = key else { continue };
+            let pt = if to_device { vec![0xa0] } else { crate::runner::to_bytes(&Value::Map(vec![(text("version"), text("1.0")), (text("status"), uint(0))])) };
+            let msg = session_data(Some(&aes_encrypt(&key, &iso_iv(!to_device, c as u32), &pt)), None);
+            for (k, ctr_before) in [(0u64, base), (1, base + 1)] {
+                // a debug build stops at the arithmetic overflow of the counter (2^32-th message of a direction, outside C07's
+                // range); that is a refusal as far as THIS property goes and is counted apart
+                let r = if to_device { let d = dev.as_mut().unwrap(); catch(|| !d.handle_request(&msg).errors.contains_key("decryption_errors")) }
+                        else { let r = rdr.as_mut().unwrap(); catch(|| !r.handle_response(&msg).errors.contains_key("decryption_errors")) };
+                let obs = match r { Ok(a) => Value::Bool(a), Err(_) => { ctx.count("far_session:stopped-at-counter-overflow"); Value::Bool(false) } };
+                let args = vec![uint(if to_device { 0 } else { 1 }), uint(ctr_before), uint(c)];
+                ctx.case(if k == 0 { "far_session:next" } else { "far_session:replay-of-next" }, serde_json::json!({"to_device": to_device, "receive_counter": ctr_before, "message_counter": c}), obs,
+                    Some(("c06.far", args.clone())), Some(("c06.spec_far", args)), true);
+                if r.is_err() { break; }
+            }
+        }
+    }
     for base in bases {
         let next = base + 1;
         let mut crafted: Vec<u64> = vec![next, next % 256, next % 65_536, next % 16_777_216, next + 65_536, next + 256, next.wrapping_sub(65_536) % 4_294_967_296, base, next + 1, 1];
